@@ -102,6 +102,11 @@ theorem gen_dumpDoc_eq_model (f : Fmt) (lf : Option ℚ) (b : HiLo) (pbc : V3 Bo
   · cases pbc.x <;> cases pbc.y <;> cases pbc.z <;> simp [ho]
   · cases pbc.x <;> cases pbc.y <;> cases pbc.z <;> simp [ho]
 
+/-- the defaults of `atom_dump.dump`: `atom_id` first, then the system's properties without (the first) `atom_id`;
+    shapes `()` for `atom_id`, `(3,)` for `spos` / `upos` / `supos`, the stored shape otherwise. -/
+theorem gen_defaultDump_eq_model : genDefaultDumpNames = defaultDumpNames ∧ genDefaultDumpShape = defaultDumpShape :=
+  ⟨rfl, rfl⟩
+
 /-! ## POSCAR (atomman/dump/poscar/dump.py) -/
 
 /-- the text `poscar.dump` builds — comment, factor, the three cell vectors divided by the factor, the symbols line
